@@ -115,6 +115,32 @@ def class_worker(part, codes):
             ok_i = False
         if not ok_i:
             part.fail("class-int-matrix:%d" % code, "operation %s built from an integer-typed rotation matrix differs from the float-built one (code/str/apply/seitz)" % want, case)
+        # homogeneous points with a weight other than one (w = 0 are directions: no translation; w = 2 doubles it): the (N,4) form is
+        # the product with the Seitz matrix, i.e. (R x + w t, w)
+        pw = np.array([[0.1, 0.2, 0.3, 2.0], [0.9, -0.4, 1.7, 0.0], [0.25, 0.5, -0.75, -1.0], [1.5, 0.0, 0.125, 0.5]])
+        Rm, tv = np.array(op[0], dtype=float).reshape(3, 3), np.array(op[1], dtype=float) / 12.0
+        want_w = np.c_[pw[:, :3] @ Rm.T + pw[:, 3:4] * tv[None, :], pw[:, 3]]
+        try:
+            got_w = np.asarray(a.apply(pw), dtype=float)
+            ok_w = got_w.shape == want_w.shape and np.abs(got_w - want_w).max() < 1e-12 and np.abs(np.asarray(a(pw), dtype=float) - want_w).max() < 1e-12
+        except Exception:
+            ok_w = False
+        if not ok_w:
+            part.fail("class-homogeneous-weight:%d" % code, "operation %s applied to homogeneous points with weights (2, 0, -1, 1/2) is not the product with its Seitz matrix" % want, case)
+        # an operation that went through copy / deepcopy / pickle is the same operation in all its forms
+        import copy
+        import pickle
+
+        for cname, dup in (("copy", copy.copy), ("deepcopy", copy.deepcopy), ("pickle", lambda x: pickle.loads(pickle.dumps(x)))):
+            for src in (a, b):
+                try:
+                    t_ = dup(src)
+                    okc = int(t_.integer_code) == code and str(t_) == want and t_ == a and hash(t_) == hash(a) and np.abs(t_.apply(pts3) - a.apply(pts3)).max() < 1e-14 \
+                        and np.abs(np.asarray(t_.seitz_matrix) - np.asarray(a.seitz_matrix)).max() < 1e-14
+                except Exception:
+                    okc = False
+                if not okc:
+                    part.fail("class-copy-route:%s:%d" % (cname, code), "operation %s after %s is not the same operation (code/str/==/hash/apply/seitz)" % (want, cname), case)
         # arithmetic: adding / subtracting a vector (operator and augmented-assignment spelling, the latter on an object whose
         # code, hash and string were already read) gives the operation with the shifted translation, in ALL its forms
         for tw in ((6, 0, 0), (4, 8, 2), (12, 0, -24), (3, 3, 9)):
